@@ -168,6 +168,18 @@ func init() {
 					eRule{ID: 9, Ph: 1, Mk: "-", Rt: "-", Sa: "-", Sev: -1, Tags: []string{}, Log: true, Audit: true,
 						Links: []eLink{{Tg: []eTarget{{V: "ARGS_GET", K: gen.Field("ip"), X: []string{}}}, Op: &eOp{N: "pm", A: gen.Field("10.1 168.1 2.3.4 16.5")}, Tfs: []string{}, NA: []eNAct{}}}})
 			}
+			if i%2 == 1 {
+				// run-time exclusions by tag and by message, executed by every transaction from its first rule on: whatever the
+				// shared action resolves (the rules carrying the tag / message: several of them) is resolved while others read it
+				mkT := func(id int, tag, msg string) eRule {
+					return eRule{ID: id, Ph: 1, Mk: "-", Rt: "-", Sa: "-", Sev: -1, Tags: []string{gen.Field(tag)}, Msg: gen.Field(msg), Log: true, Audit: true,
+						Links: []eLink{{Tg: []eTarget{{V: "ARGS_GET", K: gen.Field("a"), X: []string{}}}, Op: &eOp{N: "streq", A: gen.Field("x")}, Tfs: []string{}, NA: []eNAct{}}}}
+				}
+				ctlRule := eRule{ID: 16, Ph: 1, Mk: "-", Rt: "-", Sa: "-", Sev: -1, Tags: []string{}, Links: []eLink{{Tg: []eTarget{}, Tfs: []string{}, NA: []eNAct{
+					{N: "ctlRemoveByTag", Tag: gen.Field("ct1")}, {N: "ctlRemoveTargetByTag", Tag: gen.Field("ct2"), Var: "ARGS_GET", K: gen.Field("a")},
+					{N: "ctlRemoveByMsg", Msg: gen.Field("cm1")}, {N: "ctlRemoveTargetByMsg", Msg: gen.Field("cm2"), Var: "ARGS_GET", K: "-"}}}}}
+				base.Rules = append([]eRule{ctlRule, mkT(17, "ct1", "cm2"), mkT(18, "ct1", "cm1"), mkT(19, "ct2", "cm1"), mkT(21, "ct2", "cm2")}, base.Rules...)
+			}
 			audited := i%4 == 1
 			if audited {
 				// audit log On; some requests change their own audit parts / engine at run time (relative and absolute forms)
